@@ -882,6 +882,9 @@ func (in *Interp) narrowMul(a, b *Term) int {
 
 func (in *Interp) fpBinop(op token.Token, a, b *Term) Value {
 	ts := in.ts
+	if in.fpReal() && !(a.Op == OFPConst && b.Op == OFPConst) {
+		return in.fpRealBinop(op, a, b)
+	}
 	if a.Op == OFPConst && b.Op == OFPConst && a.Sort.W == 64 {
 		x, y := math.Float64frombits(a.Val), math.Float64frombits(b.Val)
 		switch op {
@@ -1074,6 +1077,9 @@ func (in *Interp) convert(v Value, from, to types.Type) Value {
 			}
 			return ts.FPConst(64, math.Float64bits(f))
 		}
+		if in.fpReal() {
+			return in.fpRealFromInt(t, fsigned)
+		}
 		if fsigned {
 			return ts.App(OFPFromS, Sort{SFP, tw}, 0, t)
 		}
@@ -1091,12 +1097,15 @@ func (in *Interp) convert(v Value, from, to types.Type) Value {
 			}
 			return ts.Const(tw, uint64(f))
 		}
+		if in.fpReal() {
+			return in.fpRealToInt(t, tw, tsigned)
+		}
 		if tsigned {
 			return ts.App(OFPToS, BV(tw), 0, t)
 		}
 		return ts.App(OFPToU, BV(tw), 0, t)
 	case fk == "float" && tk == "float":
-		if t.Sort.W == tw {
+		if t.Sort.W == tw || t.Sort.K == SReal {
 			return t
 		}
 		if t.Op == OFPConst {
